@@ -529,3 +529,28 @@ def ensemble_wrappers_forward_the_settings(ctx):
                 problems.append('SetEvaluationLimits is not called')
         ctx.check(not problems, name + '#forwarding', 'limits, penalty, constraints and bounds reach the ensemble on all %d paths to Solve' % r['paths'],
                   '%s: %s' % (name, problems[0] if problems else ''), f, f.node)
+
+
+@rule('C09.i', min_instances=2)
+def integer_bin_counts_multiply_to_the_member_count(ctx):
+    """a lattice given an integer number of bins factorises it (grid.randomly_bin): the nested `factors` is trial division by 2 and by every odd number up to n itself - so a prime n yields [n] - and the bins are the products of the shuffled factors taken with stride dim, so they multiply to N (reference summaries confirmed by reading; a bound of n//2 returns no factor at all for an odd prime, the lattice then allocates N members and runs one)"""
+    from .c09_refs import REFS
+    a = 'mystic.math.grid:randomly_bin'
+    f = ctx.func(a)
+    g = ctx.func(a + '.factors')
+    ref_tree = ast.parse(REFS[a]).body[0]
+    ref_factors = [n for n in ref_tree.body if isinstance(n, ast.FunctionDef) and n.name == 'factors'][0]
+    got, want = SB.agree(g.node, ast.unparse(ref_factors) + '\n')
+    ctx.stats['terms_compared'] += len(got)
+    ctx.check(got == want, 'randomly_bin.factors', 'trial division by 2, 3, 5, ... up to n', 'randomly_bin.factors differs from its confirmed behaviour: %s' % SB.diff(got, want)[:500], g, g.node)
+    import copy as _copy
+    outer = _copy.deepcopy(f.node)
+    ref_outer = _copy.deepcopy(ref_tree)
+    for tree_ in (outer, ref_outer):
+        for n_ in ast.walk(tree_):
+            if isinstance(n_, ast.FunctionDef) and n_.name == 'factors':
+                n_.body = [ast.Pass()]
+    ast.fix_missing_locations(outer)
+    got, want = SB.agree(outer, ast.unparse(ref_outer) + '\n')
+    ctx.stats['terms_compared'] += len(got)
+    ctx.check(got == want, 'randomly_bin', 'bins = products of the shuffled factors with stride dim', 'randomly_bin differs from its confirmed behaviour: %s' % SB.diff(got, want)[:500], f, f.node)
